@@ -74,5 +74,11 @@ def addNew (s : Snap) (n : Node) (f2o : SlotMap) (syn : Node) (data : String) : 
              some (setNew s1 i (sh2, bij2) (Grp.generators g), { id := i, m := f2o }))
         | _, _ => none
 
+/-- `EGraph::add` (`add_internal`): the hit returns the stored invocation and leaves the state alone, the miss allocates -/
+def add (s : Snap) (n : Node) (f2o : SlotMap) (syn : Node) (data : String) : Option (Snap × AppId) :=
+  match lookup s n with
+  | some a => some (s, a)
+  | none => addNew s n f2o syn data
+
 end Snap
 end SV
